@@ -202,7 +202,16 @@ pub fn run(ctx: &Ctx, sink: &mut Sink) {
         }
         // ---- reduce is the left fold from its initial value (fold done by the harness with real calls)
         if f.class.starts_with("reducer") || f.class == "builtin-atleast" || f.class == "builtin-exact2" || f.class == "lambda-arity2" || f.class == "builtin-exact3" {
-            let z = RVal::num(r.below(4) as f64);
+            // the initial value is any value: a number mostly, but also null / false / empty values (an implementation
+            // must not read them as "no initial value")
+            let z = match r.below(10) {
+                0 => RVal::Null,
+                1 => RVal::Bool(false),
+                2 => RVal::Str(String::new()),
+                3 => RVal::List(vec![]),
+                4 => RVal::List(vec![RVal::Null]),
+                _ => RVal::num(r.below(4) as f64),
+            };
             let red = ev(&format!("reduce(l, {}, {})", fx, lit(&z)));
             let with_index = accepts(f, 3);
             let _ = sess.eval(&format!("acc0 = {}", lit(&z)));
